@@ -87,7 +87,11 @@ def run(ctx):
     for (spec, variants, ops, r), segs, io, mo in zip(jobs, results, ios, outs):
         case = {'module': spec['module'], 'ops': ops, 'interpreters': len(segs), 'spec': spec, 'variants_full': variants}
         if any(s['errors'] for s in segs):
-            ctx.count('construction-error'); continue
+            ctx.count('construction-error')
+            errs = [e for s in segs for e in s['errors']]
+            if any(e != 'bad_type' for e in errs):
+                ctx.case({'module': spec['module'], 'ops': ops}); ctx.diverge('family:construction', case, errs, 'constructible')
+            continue
         ctx.case({k: v for k, v in case.items() if k not in ('spec', 'variants_full')}, nontrivial=True)
         ctx.count('real-restart-history'); ctx.count('interpreters', len(segs))
         for k, (a, b) in enumerate(zip(io, mo.get('outs', []))):
